@@ -89,7 +89,9 @@ def run_cases(ck, res, n_cases, n_interval):
         nrows = r.randint(1, 5)
         pts = {l: [dy(r, -2, 2, 4) for _ in range(nrows)] for l in leaves}
         X = {l: enga.col(torch, pts[l]) for l in leaves}
-        probes = {s: Probe(len(dep), r, nterms=r.randint(1, 3)) for s, dep in syms}
+        # every 4th case: fields affine in the coordinates (constant slopes: derivatives that do not require grad)
+        probes = {s: (Probe.affine(len(dep), dy(r, -2, 2), [dy(r, -2, 2) or 1.0 for _ in dep]) if ci % 4 == 3 else Probe(len(dep), r, nterms=r.randint(1, 3)))
+                  for s, dep in syms}
         fields = [probes[s].torch(*[X[l] for l in dep]) for s, dep in syms]
         inp = {'op': name, 'fields': {s: probes[s].describe() for s, _ in syms}, 'points': pts}
         try:
